@@ -14,7 +14,9 @@ def run(sid):
     out = r.stdout + r.stderr
     viol = [l for l in out.splitlines() if l.startswith("VIOLATION") or l.strip().startswith("signature=")]
     status = "DETECTED" if "VIOLATION" in out else ("MISSED" if "exit=0" in out else "ERROR")
-    meta["detected_by"] = {"status": status, "tier": "quick", "lines": viol[:6]}
+    meta.setdefault("first_quick_result", status)
+    meta["detected_by"] = {"status": status, "tier": "quick", "lines": [l[:300] for l in viol[:6]],
+                           "verif_commit": os.popen(f"git -C {ROOT} rev-parse --short HEAD").read().strip()}
     json.dump(meta, open(os.path.join(sd, sid, "meta.json"), "w"), indent=1)
     return sid, status, "; ".join(l.strip() for l in viol[:4]) if status != "ERROR" else out[-600:]
 with cf.ThreadPoolExecutor(max_workers=int(os.environ.get("SEED_JOBS", "3"))) as ex:
